@@ -90,7 +90,13 @@ def py_weights(w):
     if w is None:
         return None
     if w['kind'] == 'arr':
+        if w.get('as') == 'list':                       # a Python list of ints
+            return [int(v) for v in w['vals']]
+        if w.get('as') in ('int64', 'int32', 'bool'):   # integer / boolean arrays
+            return np.array(w['vals']).astype(w['as'])
         return np.array(w['vals'], dtype=float)
+    if w.get('as') == 'int':                            # numpy keys, integer values
+        return {np.int64(k): int(v) for k, v in zip(w['keys'], w['vals'])}
     return {int(k): float(v) for k, v in zip(w['keys'], w['vals'])}
 
 
@@ -109,7 +115,12 @@ def _do_job(job, mods):
             mods['rec'].clear()
             pr = mods['PageRank'](damping_factor=job['damping'], solver=job['solver'], n_iter=job['n_iter'], tol=job['tol'])
             s = pr.fit_predict(a, py_weights(job['weights']))
-            return {'scores': [float(x) for x in s], 'dtype': str(s.dtype), 'contract': dict(mods['rec'])}
+            con = dict(mods['rec'])
+            op = con.pop('op', None)
+            if op is not None:
+                x = np.asarray(s, dtype=float)
+                con['res1_scores'] = float(np.abs(op.dot(x) - x).sum())     # l1 move of the output under the operator
+            return {'scores': [float(x) for x in s], 'dtype': str(s.dtype), 'contract': con}
         if kind == 'values':
             a = csr_of(job['graph'])
             _, v, _ = mods['get_adjacency_values'](a, values=py_weights(job['weights']), default_value=0, which='probs')
@@ -202,7 +213,7 @@ def _worker_main():
         vv = v[:, 0]
         r = A.dot(vv) - w[0] * vv
         rec.update({'solver': 'eigs', 'lambda_re': float(np.real(w[0])), 'lambda_im': float(np.imag(w[0])),
-                    'res2': float(np.linalg.norm(r)), 'v2': float(np.linalg.norm(vv))})
+                    'res2': float(np.linalg.norm(r)), 'v2': float(np.linalg.norm(vv)), 'op': A})
         return w, v
     ppr.bicgstab = bicgstab_rec
     sla.eigs = eigs_rec
@@ -311,7 +322,20 @@ def weights_variants(rng, a, k=3):
     outs.append({'kind': 'dict', 'keys': keys, 'vals': [float(rng.choice([1, 1, 2, 0.5, 3])) for _ in keys]})
     if k >= 4:
         outs.append({'kind': 'arr', 'vals': [float(rng.randint(1, 9)) / 8 for _ in range(n)]})
-    return outs[:k] if k < len(outs) else outs
+        # the same weights as a list, an integer or boolean array, a dict with numpy keys and int values
+        form = rng.choice(['list', 'int64', 'int32', 'bool', 'dictint'])
+        if form == 'bool':
+            vals = [float(rng.choice([0, 1])) for _ in range(n)]
+            vals[rng.randrange(n)] = 1.0
+            outs.append({'kind': 'arr', 'vals': vals, 'as': 'bool'})
+        elif form == 'dictint':
+            ks = rng.sample(range(n), rng.randint(1, min(n, 3)))
+            outs.append({'kind': 'dict', 'keys': ks, 'vals': [float(rng.randint(1, 4)) for _ in ks], 'as': 'int'})
+        else:
+            vals = [float(rng.randint(0, 3)) for _ in range(n)]
+            vals[rng.randrange(n)] = float(rng.randint(1, 3))
+            outs.append({'kind': 'arr', 'vals': vals, 'as': form})
+    return outs[:k] if k < 4 else outs
 
 
 def pagerank_graphs(ctx):
@@ -341,6 +365,13 @@ def pagerank_graphs(ctx):
     out.append(('loop_and_edge', mk(3, [(0, 0), (0, 1), (1, 2)], [1, 1, 5])))
     z = sparse.csr_matrix((np.array([1.0, 0.0, 2.0]), np.array([1, 2, 0]), np.array([0, 2, 3, 3])), shape=(3, 3))
     out.append(('explicit_zero', z))
+    # duplicate stored entries (scipy sums them): 0 -> 1 stored twice with weights 1 and 2, plus 0 -> 2 and 1 -> 0
+    out.append(('duplicate_entries', csr_of(raw_graph(3, [[(1, 1), (1, 2), (2, 1)], [(0, 1)], []]))))
+    # beyond ncv = 20: ARPACK no longer spans the whole space (an Arnoldi iteration, not a direct solve)
+    nbig = 26
+    esb = [(i, (i + 1) % nbig) for i in range(nbig)] + [(i, rng.randrange(nbig)) for i in range(nbig) if rng.random() < 0.6]
+    esb = sorted(set(e for e in esb if e[0] != e[1] and e[0] != 7))        # node 7: a sink
+    out.append(('arnoldi26', mk(nbig, esb, [rng.choice([1, 2, 3]) for _ in esb])))
     return out
 
 
@@ -454,6 +485,7 @@ def eval_pagerank(ctx, plan, threads_compiled):
     # 2. Lean lines
     lines = []
     meta = []
+    rate = {'bicgstab': [0, 0], 'lanczos': [0, 0]}     # external-solver contracts met / unmet
     for (i, t), r in sorted(results.items()):
         p = plan[i]
         job = p['job']
@@ -482,6 +514,8 @@ def eval_pagerank(ctx, plan, threads_compiled):
             sig['n_le_2'] = g['n'] <= 2     # ARPACK needs k < n - 1 (known finding F-lanczos-small)
         if 'err' in r:
             # every planned input is valid: an exception is a failure of the property on this input
+            if solver == 'push':
+                sig['failure'] = r['err']        # F-push is recorded per kind of failure, a new kind is reported
             ctx.spec_fail(sig, desc, {'impl': 'err ' + r['err'], 'msg': r.get('msg')})
             ctx.case(('pr', gtok, wtok, a, solver, t), True)
             continue
@@ -498,16 +532,22 @@ def eval_pagerank(ctx, plan, threads_compiled):
                 else:
                     ok = con['res2'] <= max(con['atol'], 1e-5 * con['b2']) * 1.0001 + 1e-300
                     ctx.count('contract:bicgstab:' + ('met' if ok else 'unmet'))
+                    rate['bicgstab'][0 if ok else 1] += 1
                     if not ok:
                         ctx.note('bicgstab answered info=0 with a residual above its own stopping rule (res=%.3g): '
                                  'contract of the external solver unmet, case checked through the other solvers only' % con['res2'])
                         continue
             if solver == 'lanczos' and con:
-                ok = con['res2'] <= 1e-6 * max(con['v2'], 1e-300) and abs(con['lambda_im']) <= 1e-9
+                # lanczos_residual_contract: an output of sum 1 moved by r (l1) by the operator is within r/(1-a) of PageRank;
+                # ARPACK is expected to return an eigenpair (residual 1e-6 on the normalised output), else: external, skipped
+                r1 = con.get('res1_scores', float('inf'))
+                ok = r1 <= 1e-6 and abs(con['lambda_im']) <= 1e-9
                 ctx.count('contract:eigs:' + ('met' if ok else 'unmet'))
+                rate['lanczos'][0 if ok else 1] += 1
                 if not ok:
-                    ctx.note('eigs contract unmet (res=%.3g): case checked through the other solvers only' % con['res2'])
+                    ctx.note('eigs contract unmet (l1 residual of the output %.3g): case checked through the other solvers only' % r1)
                     continue
+                eps_override = F64_TOL + 2 * r1 / (1 - a)
             eps = eps_override if eps_override is not None else spec_eps(solver, a, g['n'], job['tol'], con)
             x = r['scores']
             if any(math.isnan(v) or math.isinf(v) for v in x):
@@ -527,6 +567,11 @@ def eval_pagerank(ctx, plan, threads_compiled):
                 lines.append('c04.diter %s %s %s %d %s' % (gtok, enc_rat(float(np.float32(a))), wtok, k,
                                                            enc_rat(float(np.float32(job['tol'])))))
             meta.append(('run', p, t, r, sig, desc))
+    # a contract of an external solver that is unmet more than occasionally is not an assumption any more: reported
+    for sv, (met, unmet) in rate.items():
+        if unmet > max(2, 0.02 * (met + unmet)):
+            ctx.spec_fail({'entry': 'PageRank', 'solver': sv, 'contract': 'unmet-rate'}, {'met': met, 'unmet': unmet},
+                          {'detail': 'contract of the external solver unmet on %d of %d calls: these outputs were not compared' % (unmet, met + unmet)})
     answers = ctx.lean(lines)
     # 3. compare
     from vlib.core import ToolFailure
@@ -545,6 +590,8 @@ def eval_pagerank(ctx, plan, threads_compiled):
                 ctx.count('pagerank-spec:not-applicable')
                 continue
             if ans != 'holds':
+                if job['solver'] == 'push':
+                    sig = dict(sig, failure='wrong-scores')
                 ctx.spec_fail(sig, desc, {'spec_line': line, 'spec_answer': ans, 'impl': r['scores']})
         elif kind == 'run':
             key = ('prrun', enc_graph(g), enc_weights(job['weights']), job['damping'], job['solver'], job['n_iter'], job['tol'])
@@ -756,8 +803,14 @@ def other_plan(ctx):
         ws.append({'kind': 'dict', 'keys': [0, n + rng.randint(0, 2)], 'vals': [1.0, 2.0]})   # key out of range: IndexError
         ws.append({'kind': 'arr', 'vals': [0.0] * n})                             # null weights: left as they are
         ws.append({'kind': 'dict', 'keys': [rng.randrange(n)], 'vals': [0.0]})
+        ws.append({'kind': 'dict', 'keys': [], 'vals': []})                       # empty dict: ValueError (np.min of nothing)
         for w in rng.sample(ws, 3):
             plan.append({'kind': 'values', 'graph': gdesc(a), 'weights': w})
+    # negative weights: documented as "ignored" (docstring of get_adjacency_values, warning of get_values); the code divides by
+    # the signed sum (known finding F-neg-weights); the model follows the code, the documented behaviour is checked apart
+    a3 = mk(3, [(0, 1), (1, 2)])
+    plan.append({'kind': 'values', 'graph': gdesc(a3), 'weights': {'kind': 'arr', 'vals': [2.0, -1.0, 0.0]}})
+    plan.append({'kind': 'values', 'graph': gdesc(a3), 'weights': {'kind': 'dict', 'keys': [0, 2], 'vals': [3.0, -1.0]}})
     # ---- push kernel as written (integer weights >= 1: the int32-cast degrees stay positive), model vs code
     for n, es in rng.sample([x for x in kg if x[0] <= 8], 30 if quick else 250):
         a = mk(n, es, [float(rng.choice([1, 1, 2, 3])) for _ in es])
@@ -824,9 +877,27 @@ def eval_other(ctx, plan):
             if not impl_err:
                 r = dict(r)
                 r['scores'] = r['values']
+                wv = job['weights']['vals'] if job['weights'] else []
+                if any(x < 0 for x in wv):
+                    # "Negative values ignored": the documented distribution is that of the weights clipped at 0
+                    full = [0.0] * g['n']
+                    if job['weights']['kind'] == 'arr':
+                        full = list(wv)
+                    else:
+                        for k_, v_ in zip(job['weights']['keys'], wv):
+                            full[k_] = v_
+                    pos = [max(x, 0.0) for x in full]
+                    doc = [x / sum(pos) for x in pos] if sum(pos) > 0 else pos
+                    ctx.count('values:negative-weights')
+                    if not close(doc, r['values'], 1e-12):
+                        ctx.spec_fail({'entry': 'get_adjacency_values', 'weights': 'negative'}, job,
+                                      {'documented': doc, 'impl': r['values']})
         elif kind == 'push':
             if impl_err:
+                # integer weights >= 1: no degree is truncated to 0, the kernel has no reason to refuse
                 ctx.count('run:push:error')
+                ctx.spec_fail({'entry': 'PageRank', 'solver': 'push', 'failure': r['err']}, job,
+                              {'impl': impl_err, 'msg': r.get('msg')})
                 continue
             sig['line'] = 'run'
             run = 'c04.push %s %s %s %s %s %s' % (enc_graph(g), enc_ratlist(r['deg']), enc_rat(float(np.float32(job['damping']))),
@@ -966,13 +1037,16 @@ def search(ctx, pending):
     others = {'Katz', 'Closeness', 'Betweenness', 'HITS'}
     if not entries or entries - others:
         plan = []
-        for n in (2, 3):
-            for es in all_digraphs(n):
-                if not es:
-                    continue
-                a = mk(n, es)
+        small = [(n, es, None) for n in (2, 3) for es in all_digraphs(n) if es]
+        loops3 = [es for es in all_digraphs(3, loops=True) if es and any(i == j for i, j in es)]
+        small += [(2, es, None) for es in all_digraphs(2, loops=True) if es and any(i == j for i, j in es)]
+        small += [(3, es, None) for es in rng.sample(loops3, 80)]
+        small += [(3, es, [rng.choice(WEIGHT_CHOICES) for _ in es]) for es in rng.sample(loops3, 40)]
+        for n, es, wts in small:
+            if True:
+                a = mk(n, es, wts)
                 g = gdesc(a)
-                for d in (0.5, 0.85):
+                for d in ((0.5, 0.85, 0.99) if wts is None and n == 2 else (0.5, 0.85)):
                     for w in weights_variants(rng, a, 3):
                         for solver in SOLVERS:
                             if solver == 'push':
@@ -996,6 +1070,11 @@ def search(ctx, pending):
             if es and weakly_connected(4, es):
                 plan.append({'kind': 'betweenness', 'graph': gdesc(mk(4, es)), 'directed': False})
                 plan.append({'kind': 'closeness', 'graph': gdesc(mk(4, es))})
+        for name, g, sym in degenerate_graphs(rng):
+            plan.append({'kind': 'closeness', 'graph': g, 'name': name})
+            plan.append({'kind': 'betweenness', 'graph': g, 'directed': not sym, 'name': name})
+        nbig, esbig = diamond_chain(32)          # more than 2^31 shortest paths
+        plan.append({'kind': 'betweenness', 'graph': gdesc(mk(nbig, esbig)), 'directed': False, 'name': 'diamonds32', 'big': True})
         for _ in range(30):
             nr, nc = rng.randint(2, 4), rng.randint(2, 4)
             dense = np.array([[rng.choice([0, 1, 1, 2]) for _ in range(nc)] for _ in range(nr)], dtype=float)
@@ -1018,7 +1097,7 @@ def replay(ctx, payload):
         t = case.get('threads', 1)
         check = 'spec' if (job['kind'] == 'pagerank' and job['n_iter'] >= iters_for(job['damping'])) else 'run'
         eval_pagerank(ctx, [{'job': job, 'check': check, 'name': 'replay'}], [t])
-    elif case.get('kind') in ('katz', 'closeness', 'betweenness', 'hits'):
+    elif case.get('kind') in ('katz', 'closeness', 'betweenness', 'hits', 'values', 'push'):
         eval_other(ctx, [case])
     else:
         run(ctx)
